@@ -328,14 +328,19 @@ def selectedTests (av : Avail) (c : Config) : Except Err (List Name) :=
   | .error e => .error e
   | .ok ls => .ok (select av.tests ls)
 
+/-- the variant universe of one vm -/
+def vmUniverse (av : Avail) (vm : Str) : List Name :=
+  match av.vmObjs.find? (·.1 == vm) with
+  | some p => p.2
+  | none => []
+
 /-- the variants of one vm a restriction string selects (`parse_flat_objects(vm, "vms", vm_str)`) -/
 def selectedVmObjs (av : Avail) (vm : Str) (lines : List (Str × Str)) : Except Err (List Name) :=
   match parseLines lines with
   | .error e => .error e
   | .ok ls =>
-    let u := match av.vmObjs.find? (·.1 == vm) with | some p => p.2 | none => []
-    let r := select u ls
-    if r.isEmpty then .error .emptyProduct else .ok r
+    if (select (vmUniverse av vm) ls).isEmpty then .error .emptyProduct
+    else .ok (select (vmUniverse av vm) ls)
 
 /-- value of parameter `k` in a parsed test whose configuration gives `base`: the command line
 dictionary is parsed last -/
